@@ -911,3 +911,75 @@ pub fn respell_models(rng: &mut Rng, m: &[TableDef]) -> Vec<TableDef> {
     }
     out
 }
+
+/// C14: the project whose tables are literally named prefix+name (tables, FK targets inline and table level).
+pub fn literal_table(p: &str, t: &TableDef) -> TableDef {
+    let mut t = t.clone();
+    t.name = format!("{}{}", p, t.name);
+    for c in t.columns.iter_mut() {
+        literal_col(p, c);
+    }
+    for k in t.constraints.iter_mut() {
+        literal_constraint(p, k);
+    }
+    t
+}
+pub fn literal_ref(p: &str, s: &str) -> String {
+    let parts: Vec<&str> = s.split('.').collect();
+    if parts.len() == 2 && !parts[0].is_empty() && !parts[1].is_empty() {
+        format!("{}{}.{}", p, parts[0], parts[1])
+    } else {
+        s.to_string()
+    }
+}
+pub fn literal_col(p: &str, c: &mut ColumnDef) {
+    c.foreign_key = match c.foreign_key.take() {
+        Some(ForeignKeySyntax::String(s)) => Some(ForeignKeySyntax::String(literal_ref(p, &s))),
+        Some(ForeignKeySyntax::Reference(mut r)) => {
+            r.references = literal_ref(p, &r.references);
+            Some(ForeignKeySyntax::Reference(r))
+        }
+        Some(ForeignKeySyntax::Object(mut o)) => {
+            o.ref_table = format!("{}{}", p, o.ref_table);
+            Some(ForeignKeySyntax::Object(o))
+        }
+        None => None,
+    };
+}
+pub fn literal_constraint(p: &str, k: &mut TableConstraint) {
+    if let TableConstraint::ForeignKey { ref_table, .. } = k {
+        *ref_table = format!("{}{}", p, ref_table);
+    }
+}
+pub fn literal_action(p: &str, a: &MigrationAction) -> MigrationAction {
+    use MigrationAction::*;
+    let pt = |t: &String| format!("{}{}", p, t);
+    match a.clone() {
+        CreateTable { table, mut columns, mut constraints } => {
+            columns.iter_mut().for_each(|c| literal_col(p, c));
+            constraints.iter_mut().for_each(|k| literal_constraint(p, k));
+            CreateTable { table: pt(&table), columns, constraints }
+        }
+        DeleteTable { table } => DeleteTable { table: pt(&table) },
+        AddColumn { table, mut column, fill_with } => {
+            literal_col(p, &mut column);
+            AddColumn { table: pt(&table), column, fill_with }
+        }
+        RenameColumn { table, from, to } => RenameColumn { table: pt(&table), from, to },
+        DeleteColumn { table, column } => DeleteColumn { table: pt(&table), column },
+        ModifyColumnType { table, column, new_type, fill_with } => ModifyColumnType { table: pt(&table), column, new_type, fill_with },
+        ModifyColumnNullable { table, column, nullable, fill_with } => ModifyColumnNullable { table: pt(&table), column, nullable, fill_with },
+        ModifyColumnDefault { table, column, new_default } => ModifyColumnDefault { table: pt(&table), column, new_default },
+        ModifyColumnComment { table, column, new_comment } => ModifyColumnComment { table: pt(&table), column, new_comment },
+        AddConstraint { table, mut constraint } => {
+            literal_constraint(p, &mut constraint);
+            AddConstraint { table: pt(&table), constraint }
+        }
+        RemoveConstraint { table, mut constraint } => {
+            literal_constraint(p, &mut constraint);
+            RemoveConstraint { table: pt(&table), constraint }
+        }
+        RenameTable { from, to } => RenameTable { from: pt(&from), to: pt(&to) },
+        RawSql { sql } => RawSql { sql },
+    }
+}
